@@ -2,6 +2,7 @@ import BobEM.Model.Rng
 import BobEM.Props.C02
 import BobEM.Props.C14
 import BobEM.Lemmas.KMeansDescent
+import BobEM.Lemmas.FAPerm
 
 /-!
 # C16 — A trained model is a function of the labelled sample multiset and the seed only
@@ -95,3 +96,25 @@ theorem C16_wccn_class_renaming {N : ℕ} (chol : (n : ℕ) → (Fin n → Fin n
     (hperm : classes'.Perm (classes.map f)) :
     Lin.wccnFit chol X (fun n => f (y n)) classes' = Lin.wccnFit chol X y classes :=
   C14_wccn_label_invariance chol X y classes classes' f hf hperm
+
+
+/-! ### ISV / JFA training: order of the classes (= renaming the ids) and of the sessions inside a class -/
+
+open BobEM.FA in
+/-- **ISV training** gives the same U whether the classes are enumerated in another order (class ids
+renamed by a permutation) and the sessions of each class arrive in another order -/
+theorem C16_isv_sample_order_and_renaming {C D rU rV : ℕ} (M0 : Model C D rU rV ℝ) (cl cl' : List (List (St C D ℝ)))
+    (h : SameSessions cl cl') (k : ℕ) : isvFit M0 cl k = isvFit M0 cl' k :=
+  isvFit_same M0 h k
+
+open BobEM.FA in
+/-- **JFA training** (V, then U, then D, `k` iterations each): same statement -/
+theorem C16_jfa_sample_order_and_renaming {C D rU rV : ℕ} (M0 : Model C D rU rV ℝ) (cl cl' : List (List (St C D ℝ)))
+    (h : SameSessions cl cl') (k : ℕ) : jfaFit M0 cl k = jfaFit M0 cl' k :=
+  jfaFit_same M0 h k
+
+open BobEM.FA in
+/-- non-vacuity: swapping two classes and the two sessions of one of them is a `SameSessions` pair -/
+example (a b c : St 1 1 ℝ) : SameSessions [[a, b], [c]] [[c], [b, a]] :=
+  ⟨[[b, a], [c]], List.Forall₂.cons (List.Perm.swap b a []) (List.Forall₂.cons (List.Perm.refl _) List.Forall₂.nil),
+    List.Perm.swap [c] [b, a] []⟩
